@@ -92,7 +92,11 @@ def generate(seed, tier="quick"):
         steps = [zrng.choice([["fix"], ["create", "fix"]])] + steps[:2]
         if len(steps) < 2:
             steps.append(zrng.choice([[], ["trim"], ["fix"]]))
-    return {"program": prog, "steps": steps}
+    # the developer's shell exports INLINE_SNAPSHOT_DEFAULT_FLAGS (the flags for sessions started without --inline-snapshot); every session of
+    # this history names its flags explicitly, so all three executors still have to agree
+    erng = sub(seed, "envflags")
+    env_flags = erng.choice(["create", "fix", "trim", "create,fix", "update", "report", "create,fix,trim,update", "disable"]) if erng.random() < 0.3 else None
+    return {"program": prog, "steps": steps, "env_flags": env_flags}
 
 
 def has_norepr(prog):
@@ -114,11 +118,12 @@ def execute(case, ctx):
         flags = ",".join(["report"] + sorted(cats))
         tests_only = {k: v for k, v in cur.items() if k.startswith("test_")}
         # ---- executor 1: run_inline
-        n1, r1 = sim.run_session(ctx, "inline", cur, {"flags": flags})
+        env = {"INLINE_SNAPSHOT_DEFAULT_FLAGS": case["env_flags"]} if case.get("env_flags") else None
+        n1, r1 = sim.run_session(ctx, "inline", cur, {"flags": flags, "env": env})
         # ---- executor 2: the real plugin, forked
-        n2, r2 = sim.run_session(ctx, "plugin", cur, {"flags": flags})
+        n2, r2 = sim.run_session(ctx, "plugin", cur, {"flags": flags, "env": env})
         # ---- executor 3: run_pytest
-        r3 = drivers.run_runpytest({k: (v.decode() if isinstance(v, bytes) else v) for k, v in cur.items()}, {"flags": flags}, ctx.scratch)
+        r3 = drivers.run_runpytest({k: (v.decode() if isinstance(v, bytes) else v) for k, v in cur.items()}, {"flags": flags, "env": env}, ctx.scratch)
         ctx.sessions += 1
         ctx.log.append({"run_pytest": r3.get("changed"), "rc": r3.get("rc"), "exc": r3.get("exc")})
         if not sim.session_completed("inline", r1) or not sim.session_completed("plugin", r2) or r3.get("status") != "ok" or r3.get("exc"):
@@ -160,3 +165,5 @@ def shrink(case):
             yield dict(case, steps=case["steps"][:i] + case["steps"][i + 1:])
     for p in W.shrink_program(case["program"]):
         yield dict(case, program=p)
+    if case.get("env_flags"):
+        yield dict(case, env_flags=None)
